@@ -219,6 +219,23 @@ def run_case(cls, case):
     if got is not case['equal'] or got_rev is not case['equal']:
       return 'Equality', '(%s) == (%s): expected %r, got %r / %r' % (
           shown, ', '.join('%s=%r' % (k, decode(e)) for k, e in case['kwargs2']), case['equal'], got, got_rev)
+    # equality speaks about the values the fields hold NOW: the fields are public and assignable
+    try:
+      import dataclasses
+      if case['equal']:
+        obj.n_test = obj.n_test + 1
+        if obj == obj2 or obj2 == obj:
+          return 'Equality', '(%s): still equal to its twin after n_test was re-assigned on one of them' % shown
+        obj.n_test = obj.n_test - 1
+        if not (obj == obj2):
+          return 'Equality', '(%s): unequal to its twin after n_test was assigned back' % shown
+      else:
+        for f in dataclasses.fields(obj2):
+          setattr(obj, f.name, getattr(obj2, f.name))
+        if not (obj == obj2 and obj2 == obj):
+          return 'Equality', '(%s): unequal to the second object after every field was assigned its value' % shown
+    except Exception as e:  # pylint: disable=broad-except
+      return 'Equality', 'comparison after re-assignment raised %s: %s' % (type(e).__name__, e)
   return None
 
 
